@@ -69,6 +69,12 @@ def glencoe_model(g, n):
         grow(rng.choice(leaves), 0)
         if budget[0] == before:
             break
+    if rng.random() < 0.15:
+        # a wide group whose bounds have different numbers of digits
+        leaf = rng.choice([f for f in spec.spec_features(root) if not f["rels"]])
+        k = rng.randint(10, 13)
+        leaf["rels"].append(spec.R(rng.randint(2, 9), rng.randint(10, k), [spec.F(f"{leaf['name']}_w{j}") for j in range(k)]))
+        g.count("rel_kind", "wide-multi-digit-bounds")
     fnames = [f["name"] for f in spec.spec_features(root)]
     ctcs = g.ctcs(fnames, rng.choice([0, 1, 2, 3]), gen.LOGICAL, 3)
     g.count("tree_size", len(fnames))
